@@ -657,6 +657,9 @@ func (m *farmMon) applyTx(br *rig.BlockRecord, tx *rig.TxRecord, tag *farmTag, p
 				m.run.Count("stake-accepted-outside-lifetime", 1)
 				m.run.Note("stake accepted in phase %s at height %d on %s", ph, h, p.ID)
 			}
+			if ph == "destroyed" {
+				m.viol("C06", "operation-accepted-on-destroyed-pool:stake", detail, "stake into %s accepted at height %d although the pool had been destroyed", p.ID, h)
+			}
 			if x.PoolId != "" && post.Pools[x.PoolId].EndHeight == h {
 				m.run.Count("op-in-ending-block", 1)
 			}
@@ -721,6 +724,9 @@ func (m *farmMon) applyTx(br *rig.BlockRecord, tx *rig.TxRecord, tag *farmTag, p
 			touched = p
 			ph := m.phase(p, h)
 			endBefore := pre.Pools[x.PoolId].EndHeight
+			if ph == "destroyed" {
+				m.viol("C06", "operation-accepted-on-destroyed-pool:adjust", detail, "adjustment of %s accepted at height %d although the pool had been destroyed", p.ID, h)
+			}
 			release(p)
 			for _, c := range x.AdditionalReward {
 				exp.sub(x.Creator, c.Denom, bi(c.Amount))
@@ -774,6 +780,12 @@ func (m *farmMon) applyTx(br *rig.BlockRecord, tx *rig.TxRecord, tag *farmTag, p
 				m.viol("C06", "refund-more-than-once:destroy", detail, "pool %s was destroyed at height %d although it had already ended (%s)", p.ID, h, p.EndedHow)
 			}
 			p.Ended, p.EndedHow = true, "destroyed"
+			if post.Queued[p.ID] {
+				m.viol("C06", "destroyed-pool-still-in-the-expiry-queue", detail, "pool %s was destroyed at height %d and still has an expiry-queue entry right after the transaction", p.ID, h)
+			}
+			if pre.Pools[x.PoolId].EndHeight == h {
+				m.run.Count("pool-destroyed-in-its-ending-block", 1)
+			}
 			m.run.Count("pool-destroyed", 1)
 			m.run.Count("refund-destroy", 1)
 			if p.Total.Sign() > 0 {
@@ -1860,6 +1872,21 @@ func (g *farmGen) block(v *farmView, extra []rig.Tx) []rig.Tx {
 			ending = append(ending, p)
 		}
 	}
+	// ... or its creator destroys it in that very block, and the pool is then staked into and adjusted before the
+	// block ends
+	for _, p := range ending {
+		if cr := g.acct(p.Creator); p.Editable && !g.noTouch[p.Id] && cr != nil && rng.Intn(2) == 0 {
+			txs = append(txs, g.r.Mk(cr, &farmTag{Kind: "destroy", Note: "in-its-ending-block"}, &farmtypes.MsgDestroyPool{PoolId: p.Id, Creator: p.Creator}))
+			if tx, ok := g.mkStake(v, p, g.anyFarmer(), big.NewInt(5), "after-destroy-same-block"); ok {
+				txs = append(txs, tx)
+			}
+			if len(p.Rules) > 0 {
+				txs = append(txs, g.r.Mk(cr, &farmTag{Kind: "adjust", Hostile: "after-destroy-same-block"}, &farmtypes.MsgAdjustPool{PoolId: p.Id, Creator: p.Creator,
+					RewardPerBlock: sdk.NewCoins(coin(p.Rules[0].Reward, new(big.Int).Add(bi(p.Rules[0].RewardPerBlock), bigOne)))}))
+			}
+			g.run.Count("destroy-attempted-in-the-ending-block", 1)
+		}
+	}
 	for i := 0; i < n; i++ {
 		var focus *farmtypes.FarmPool
 		if len(ending) > 0 && rng.Intn(2) == 0 {
@@ -1953,7 +1980,15 @@ func (w *farmWorkload) Next(block int) []rig.Tx {
 	if g.run.Rng.Intn(5) == 0 {
 		return nil
 	}
-	return g.block(v, nil)
+	// every 17 blocks a short-lived editable pool, so that pools keep falling due (and being destroyed in the block
+	// they fall due, see block) over the whole history
+	var extra []rig.Tx
+	if block%17 == 11 && len(v.s.Pools) < 16 {
+		if tx, ok := g.mkCreate(v, "residue", 3+g.run.Rng.Intn(5), int64(g.run.Rng.Intn(2)), 1, true); ok {
+			extra = append(extra, tx)
+		}
+	}
+	return g.block(v, extra)
 }
 
 func (w *farmWorkload) Observe(*rig.BlockRecord) { farmResyncSeq(w.g.r) }
